@@ -101,10 +101,49 @@ def _gated_here(node: ast.AST) -> bool:
     return False
 
 
+def _always_exits(body: List[ast.stmt]) -> bool:
+    if not body:
+        return False
+    last = body[-1]
+    if isinstance(last, (ast.Return, ast.Raise)):
+        return True
+    if isinstance(last, ast.If) and last.orelse:
+        return _always_exits(last.body) and _always_exits(last.orelse)
+    return False
+
+
+def _negative_flag_test(test: ast.AST) -> bool:
+    """`not flag` / `not flag or ...`: the statements after an exit under this test run only with the flag set"""
+    if isinstance(test, ast.UnaryOp) and isinstance(test.op, ast.Not):
+        return _positive_flag_test(test.operand)
+    if isinstance(test, ast.BoolOp) and isinstance(test.op, ast.Or):
+        return any(_negative_flag_test(v) for v in test.values)
+    return False
+
+
+def _gated_by_early_exit(node: ast.AST) -> bool:
+    """the site comes after `if not use_graph_primitive: ...; return` in one of the statement lists that enclose it"""
+    child = node
+    p = parent(node)
+    while p is not None:
+        for field in ("body", "orelse", "finalbody"):
+            seq = getattr(p, field, None)
+            if isinstance(seq, list) and any(st is child for st in seq):
+                for st in seq:
+                    if st is child:
+                        break
+                    if isinstance(st, ast.If) and _negative_flag_test(st.test) and _always_exits(st.body):
+                        return True
+        if isinstance(p, (ast.FunctionDef, ast.AsyncFunctionDef)):
+            return False
+        child, p = p, parent(p)
+    return False
+
+
 def _gated(m: Module, node: ast.AST, depth: int) -> bool:
     """under a positive use_graph_*primitive test, directly or because the enclosing private module-level helper is only
     ever called from such a position (helpers extracted from the gated branch)"""
-    if _gated_here(node):
+    if _gated_here(node) or _gated_by_early_exit(node):
         return True
     if depth == 0:
         return False
